@@ -401,6 +401,7 @@ def main():
     seed = int(os.environ.get("VERIF_SEED", "0") or 0)
     t_start = time.time()
     harnesses = [h for h in parse_harness_files() if prop in h["props"]]
+    harnesses = [h for h in harnesses if h["tier"] in ("quick", "thorough")]  # "off": kept for the record, never run
     if tier == "quick":
         harnesses = [h for h in harnesses if h["tier"] == "quick"]
     if only:
